@@ -28,7 +28,7 @@ worker_init = sbcfam.worker_init
 
 
 def floors(tier):
-    return {NAME: 50 if tier == "quick" else 2000}
+    return {NAME: 120 if tier == "quick" else 2000}
 
 
 def gen_cases(tier, seed):
@@ -38,7 +38,7 @@ def gen_cases(tier, seed):
         chosen = universe
     else:
         rng = np.random.default_rng([seed, 3])
-        chosen = [universe[i] for i in rng.choice(len(universe), size=110, replace=False)]
+        chosen = [universe[i] for i in rng.choice(len(universe), size=320, replace=False)]
         listed = {f["key"].split("|", 1)[1] for f in hmain.load_known(ID) if f["key"].startswith("C03|")}
         have = {c["key"] for c in chosen}
         chosen += [c for c in universe if c["key"] in listed and c["key"] not in have]
